@@ -63,7 +63,12 @@ func campaignL2(t *testing.T) {
 	col := ev.C()
 	rapid.Check(t, func(rt *rapid.T) {
 		c := drawL2(rt)
+		var wild string
+		c.H, wild = hgen.MaybeRename(rt, c.H, 20)
 		v := runCase(c)
+		if wild != "" {
+			v.Class("renamed:" + wild)
+		}
 		col.Check(rt, ev.JSON(c), v)
 	})
 }
